@@ -26,7 +26,7 @@ def gen_patch_ops(rng, ws, nops):
         smp = ch["samples"][si]
         nb = len(smp["data"])
         kind = rng.choice(["add_sample", "replace_bin", "replace_obs", "remove_mod", "copy_mod", "move_mod", "test",
-                           "replace_poi", "add_param", "add_sample"])
+                           "replace_poi", "add_param", "add_sample", "cross_num", "cross_num", "cross_param"])
         op = None
         if kind == "add_sample":
             s = {"name": f"new_signal_{len(ops)}", "data": [round(rng.uniform(1, 9), 3) for _ in range(nb)],
@@ -53,6 +53,32 @@ def gen_patch_ops(rng, ws, nops):
                       "from": f"/channels/{ci}/samples/{si}/modifiers/{mi}",
                       "path": f"/channels/{cj}/samples/{sj}/modifiers/-" if (cj, sj) != (ci, si) or kind == "copy_mod"
                       else f"/channels/{ci}/samples/{si}/modifiers/0"}
+        elif kind == "cross_num":
+            # move/copy a number between two top-level sections (observations <-> channels): the source
+            # section is then touched only through 'from'
+            oi = rng.randrange(len(cur["observations"]))
+            od = cur["observations"][oi]["data"]
+            verb = rng.choice(["move", "copy"])
+            if rng.random() < 0.5 and (len(od) > 1 or verb == "copy"):
+                op = {"op": verb, "from": f"/observations/{oi}/data/{rng.randrange(len(od))}",
+                      "path": f"/channels/{ci}/samples/{si}/data/{rng.choice(['-', '0'])}"}
+            elif nb > 1 or verb == "copy":
+                op = {"op": verb, "from": f"/channels/{ci}/samples/{si}/data/{rng.randrange(nb)}",
+                      "path": f"/observations/{oi}/data/{rng.choice(['-', '0'])}"}
+        elif kind == "cross_param":
+            # copy a name from the channels section into a new parameter configuration of a measurement
+            if smp["modifiers"]:
+                mi = rng.randrange(len(smp["modifiers"]))
+                me = rng.randrange(len(cur["measurements"]))
+                ops_ = [{"op": "add", "path": f"/measurements/{me}/config/parameters/-", "value": {"name": "placeholder", "fixed": True}},
+                        {"op": "copy", "from": f"/channels/{ci}/samples/{si}/modifiers/{mi}/name",
+                         "path": f"/measurements/{me}/config/parameters/{len(cur['measurements'][me]['config']['parameters'])}/name"}]
+                try:
+                    cur = jp.apply_patch(cur, ops_)
+                    ops.extend(ops_)
+                except jp.PatchError:
+                    pass
+                continue
         elif kind == "test":
             op = {"op": "test", "path": f"/channels/{ci}/name", "value": ch["name"]}
         elif kind == "replace_poi":
